@@ -315,6 +315,14 @@ class ParseMCNPCell:
             msg = (f'unexpected entry {kw_list[-1]!r} after the universe '
                    'specifications of the FILL keyword')
             raise ParseMCNPCellError(msg)
+        if fill_params and fillid_bounds is not None \
+                and fillid_bounds.size() > 1:
+            # a transformation that follows an entry of a FILL array applies
+            # to that lattice element only, not to the whole array
+            msg = ('transformations of individual lattice elements (in '
+                   'parentheses after an entry of a FILL array) are not '
+                   'supported')
+            raise ParseMCNPCellError(msg)
         # now handle the case where the number of the
         # transformation was given instead of the transformation
         # parameters
